@@ -33,7 +33,7 @@ import (
 	"verif/harness/internal/obs"
 )
 
-const waitMax = 30 * time.Second
+const waitMax = 90 * time.Second
 
 func newRand(seed int64) *rand.Rand { return rand.New(rand.NewSource(seed)) }
 
